@@ -1,6 +1,12 @@
 import Srtla.Lemmas.ForwardHk
+import Srtla.Lemmas.Audit2AClient
 /-!
 # One event, any event: the master per-link theorem, the invariant, runs (C01)
+
+The shell model has ELEVEN event constructors: `client uplink flush hk setCfg crit failNext failBind stamp
+syncTimeout` (`Model/Sys.lean`).  Only the first four can discard a queued datagram, and each only with its
+CAUSE (`LossCause`); the seven others (`setCfg`, `crit`, the two fault injections `failNext` / `failBind`, the
+verdict stamp `stamp` and the timeout refresh `syncTimeout`) never touch a queue.
 -/
 namespace Srtla.Sys
 open Srtla Srtla.Gen Srtla.Conn Srtla.Select Srtla.Rtt Srtla.Link Scalar
@@ -33,20 +39,42 @@ def consulted (s : Sys F) (ev : Ev) (i : Nat) : Bool :=
   | .client now pkt => probeConsulted s pkt now i
   | _ => false
 
-/-- The only ways event `ev` can discard what link `i` holds (`l` before, `l'` after):
-* `client`: the threshold flush failed (a send failure was pending for the conn id) and the link was
-  reset by `mark_for_recovery`;
-* `flush`: the periodic send failed (a send failure was pending for the conn id);
-* `uplink`: a REG3 (`clear_pre_registration_state`) or REG_ERR (`mark_for_recovery`) arrived on this link;
-* `hk`: housekeeping started a reconnect of this (timed-out) link (`reset_for_reconnect`, or
-  `mark_for_recovery` when the socket re-creation failed). -/
+/-- The only ways event `ev` can discard what link `i` holds (`l` before, `l'` after).  Every arm carries the
+CAUSE, i.e. a fact about the PRE-state and the event, not only the shape of the post-state:
+* `client`: a send failure was pending for the conn id AND THIS EVENT CONSUMED IT (the multiplicity of the
+  conn id in `failNext` is strictly smaller afterwards): the threshold flush failed, and the link was reset by
+  `mark_for_recovery` (not connected, phase registering);
+* `flush`: a send failure was pending for the conn id and this event consumed it (the failed periodic send;
+  the drained batch is lost, the link is not reset);
+* `uplink`: the datagram arrived on THIS link's conn id and the registration layer classified it as REG3
+  (`clear_pre_registration_state`) or REG_ERR (`mark_for_recovery`) — by `Hk.regEvent_of_type` exactly the
+  type codes 0x9202 / 0x9210 (spelled out in `C01_loss_cause_def`);
+* `hk`: the record the tick started with was timed out at `now` AND `should_attempt_reconnect(now)` held, and
+  housekeeping started the reconnect (attempt stamped `now`, not connected, phase registering:
+  `reset_for_reconnect`, or `mark_for_recovery` when the socket re-creation failed);
+* `setCfg`, `crit`, `failNext`, `failBind`, `stamp`, `syncTimeout`: never. -/
 def LossCause (s : Sys F) (ev : Ev) (i : Nat) (l l' : FLink F) : Prop :=
   match ev with
-  | .client _ _ => FailedSendReset s.failNext l l'
-  | .flush _ => l.core.connId ∈ s.failNext
+  | .client now pkt => FailedSendReset s.failNext l l' ∧
+      (handleSrtPacket s pkt now).1.failNext.count l.core.connId < s.failNext.count l.core.connId
+  | .flush now => l.core.connId ∈ s.failNext ∧
+      (flushAllBatches s now).1.failNext.count l.core.connId < s.failNext.count l.core.connId
   | .uplink now cid data => UplinkReset s i cid data now l
-  | .hk now => HkReset now l'
+  | .hk now => HkReset now l l'
   | _ => False
+
+/-- Strengthen the cause of a `LinkFx`: the new cause has to be shown only when something really vanished
+(the queue with the appended items was non-empty, is empty now, and nothing went on the wire) — a "discard" of
+nothing is a "held". -/
+theorem LinkFx.strengthen {c1 c2 : Prop} {app : List QItem} {l l' : FLink F} {b : List Bytes}
+    (h : LinkFx c1 app l l' b) (hc : l.queue ++ app ≠ [] → l'.queue = [] → b = [] → c1 → c2) :
+    LinkFx c2 app l l' b := by
+  obtain ⟨h1, h2 | h2 | h2⟩ := h
+  · exact ⟨h1, Or.inl h2⟩
+  · exact ⟨h1, Or.inr (Or.inl h2)⟩
+  · by_cases hq : l.queue ++ app = []
+    · exact ⟨h1, Or.inl ⟨by rw [h2.1, hq], h2.2.1, Or.inl (List.append_eq_nil_iff.1 hq).2⟩⟩
+    · exact ⟨h1, Or.inr (Or.inr ⟨h2.1, h2.2.1, hc hq h2.1 h2.2.1 h2.2.2⟩)⟩
 
 theorem linkFx_of_frame {cause : Prop} {l l' : FLink F} (hc : l'.core.connId = l.core.connId)
     (h : (l'.queue = l.queue ∧ l'.probeCounter = l.probeCounter) ∨ (l'.queue = [] ∧ cause)) :
@@ -71,13 +99,16 @@ theorem step_link (s : Sys F) (ev : Ev) (hnd : (ids s.links).Nodup) :
     obtain ⟨h1, -, -, -, -, -, -, h8⟩ := client_links s pkt now hnd
     refine ⟨h1, fun i l hl => ?_⟩
     obtain ⟨l', g1, g2, g3, g4⟩ := h8 i l hl
-    exact ⟨l', g1, g2, g3, fun h => Or.inl (g4 h).1⟩
+    refine ⟨l', g1, ?_, g3, fun h => Or.inl (g4 h).1⟩
+    exact g2.strengthen fun hne hq hw hc => ⟨hc, client_consumed s pkt now hnd i l l' hl g1 hne hq hw⟩
   | flush now =>
     obtain ⟨h1, -, -, -, -, -, h7⟩ := flush_links s now hnd
     refine ⟨h1, fun i l hl => ?_⟩
     obtain ⟨l', g1, g2, g3, g4⟩ := h7 i l hl
-    refine ⟨l', g1, g2, ?_, fun _ => Or.inr g3⟩
-    unfold ProbeFx; rw [if_neg (by simp [consulted])]; exact Or.inl g4
+    refine ⟨l', g1, ?_, ?_, fun _ => Or.inr g3⟩
+    · exact g2.strengthen fun hne _ hw hc =>
+        ⟨hc, flush_consumed s now i l hl (by simpa [appended] using hne) hw⟩
+    · unfold ProbeFx; rw [if_neg (by simp [consulted])]; exact Or.inl g4
   | uplink now cid data =>
     obtain ⟨h1, -, -, -, h5⟩ := uplink_links s cid data now
     refine ⟨h1, fun i l hl => ?_⟩
